@@ -31,3 +31,4 @@ def run(prog, rep):
     _re.run_exists(prog, rep)
     from ..rules import r_io as _rio4
     _rio4.run_reclaim(prog, rep)
+    _rn.run_ref_members(prog, rep)
